@@ -168,8 +168,11 @@ def rule_eof(ctx):
     fr = ctx.index.func("recordlayer:RecordSocket._sockRecvAll")
     g = ctx.an.cfg(fr)
     recv = [n for n in g.nodes if n.kind == "stmt" and "self.sock.recv(" in norm(n.ast)]
-    app = [n for n in g.nodes if n.kind == "stmt" and norm(n.ast).startswith("buf +=")]
-    tests = [t for t in g.nodes if t.kind == "test" and norm(t.expr) == "len(socketBytes) == 0"]
+    # the chunk variable is whatever receives sock.recv(); the buffer whatever it is appended to
+    chunk = norm(recv[0].ast.targets[0]) if recv and isinstance(recv[0].ast, ast.Assign) else "socketBytes"
+    app = [n for n in g.nodes if n.kind == "stmt" and isinstance(n.ast, ast.AugAssign) and isinstance(n.ast.op, ast.Add)
+           and chunk in {x.id for x in ast.walk(n.ast.value) if isinstance(x, ast.Name)}]
+    tests = [t for t in g.nodes if t.kind == "test" and norm(t.expr) in ("len(%s) == 0" % chunk, "not %s" % chunk)]
     eff = [t for t in tests if "T" in dead_edge_labels(g, t, app)]
     okraise = any(n.kind == "raise" and "TLSAbruptCloseError" in norm(n.ast) for n in g.nodes)
     if not recv or not app:
